@@ -456,6 +456,56 @@ theorem end_does_not_halt (now mi : Nat) (ops : List Op)
   rw [hh]
   simp only [Bool.false_eq_true, if_false, h]
 
+/-- **the incentives epoch hook does not fail** (x/incentives `AfterEpochEnd`) when every rollapp gauge's
+    rollapp exists and no recipient is blocked -/
+theorem incentives_epochEnd_ok (s : State) (e : Nat) (hg : GInv s) (hroll : RollOK s) (hnb : NoBlocked s) :
+    ∃ s', incAfterEpochEnd s e = .ok s' := by
+  unfold incAfterEpochEnd
+  split
+  · exact ⟨s, rfl⟩
+  · simp only
+    generalize hf : (fun g : Gauge => if (g.status == GStatus.upcoming && decide (g.start ≤ s.now)) = true then { g with status := GStatus.active } else g) = f
+    have hfp : ∀ g, (f g).id = g.id ∧ (f g).coins = g.coins ∧ (f g).distributed = g.distributed ∧ (f g).kind = g.kind := by
+      intro g; rw [← hf]; simp only; split <;> exact ⟨rfl, rfl, rfl, rfl⟩
+    have g1 : GInv { s with gauges := s.gauges.map f } := by
+      refine ⟨?_, ?_, ?_⟩
+      · intro k hk
+        simp only [List.getElem_map]
+        rw [(hfp _).1]; exact hg.ids k (by simpa using hk)
+      · intro g hgm i
+        obtain ⟨g0, hg0, he⟩ := List.mem_map.1 hgm
+        rw [← he, (hfp g0).2.1, (hfp g0).2.2.1]; exact hg.bounded g0 hg0 i
+      · intro i
+        have : owed (s.gauges.map f) i = owed s.gauges i := by
+          unfold owed
+          rw [List.map_map]
+          apply congrArg
+          apply List.map_congr_left
+          intro g _
+          simp only [Function.comp, owedG, (hfp g).2.1, (hfp g).2.2.1]
+        simp only; rw [this]; exact hg.solvent i
+    have hsub : ∀ g ∈ List.filter (fun x => x.status == GStatus.active) (s.gauges.map f), g ∈ s.gauges.map f :=
+      fun g hgm => (List.mem_filter.1 hgm).1
+    obtain ⟨s2, h2⟩ := incDistribute_ok { s with gauges := s.gauges.map f } (List.filter (fun x => x.status == GStatus.active) (s.gauges.map f)) true
+      g1.ids g1.bounded ((idsOK_nodup _ g1.ids).sublist ((List.filter_sublist).map _))
+      (fun g hgm => ⟨g, getG_of_mem g1.ids (hsub g hgm), rfl, rfl, fun _ => Nat.le_refl _⟩)
+      (by
+        intro i
+        have : extras (s.gauges.map f) (List.filter (fun x => x.status == GStatus.active) (s.gauges.map f)) i = 0 := by
+          unfold extras
+          apply sum_zero_of_all_zero
+          intro x hx
+          obtain ⟨g, hgm, he⟩ := List.mem_map.1 hx
+          rw [← he]; exact extra_self g1.ids (hsub g hgm) i
+        simp only; rw [this]; exact g1.solvent i)
+      (by
+        intro g hgm r hk
+        obtain ⟨g0, hg0, he⟩ := List.mem_map.1 (hsub g hgm)
+        exact hroll g0.kind (List.mem_map_of_mem (f := (·.kind)) hg0) r (by rw [← (hfp g0).2.2.2, he]; exact hk))
+      hnb
+    rw [h2]
+    exact ⟨_, rfl⟩
+
 /-- F4: the owner of a launched rollapp with a gauge is a blocked module account (address 102); a stream
     feeds the gauge; the payout to the owner fails and the streamer EndBlock returns an error — the
     block fails.  (`MsgTransferOwnership` accepted such an owner before fix F4.) -/
